@@ -342,4 +342,50 @@ def computeRank (els : List (String × Py)) : List (String × Nat) :=
 
 def rankFn (rk : List (String × Nat)) (n : String) : Nat := (rk.lookup n).getD 0
 
+/-! ### Wave 6: `Model._lookup` as a machine over a history of lookups — is there hidden state?
+
+The code that exists is stateless: every call interpolates from the table alone.  `LCfg.lookupStateless = false` models the
+variant that remembers the segment of the previous lookup in the table and searches upwards from it
+(`bisect.bisect_left(x_vals, x, lo=last)`), as a realistic "optimisation" could. -/
+
+structure LCfg where
+  lookupStateless : Bool
+deriving DecidableEq, Repr
+
+/-- `bisect.bisect_left(xs, x, lo)`: first index `i ≥ lo` with `xs[i] ≥ x` (the length when there is none) -/
+def bisectAux : List Rat → Rat → Nat → Nat → Nat
+  | [], _, _, i => i
+  | a :: as, x, lo, i => if lo ≤ i ∧ x ≤ a then i else bisectAux as x lo (i + 1)
+
+def nthPt (pts : List (Rat × Rat)) (i : Nat) : Rat × Rat := pts.getD i (0, 0)
+
+/-- one lookup of the remembering variant: value and the remembered segment afterwards (the clamped ranges leave it alone) -/
+def lookupStateful (pts : List (Rat × Rat)) (last : Nat) (x : Rat) : Rat × Nat :=
+  match pts with
+  | [] => (0, last)
+  | (x0, y0) :: _ =>
+    if x ≤ x0 then (y0, last)
+    else if x ≥ lastX pts then (lastY pts, last)
+    else
+      let last' := if last > pts.length - 2 then 0 else last
+      let hi := max (bisectAux (pts.map (·.1)) x last' 0) 1
+      let a := nthPt pts (hi - 1)
+      let b := nthPt pts hi
+      ((b.2 - a.2) / (b.1 - a.1) * (x - a.1) + a.2, hi - 1)
+
+/-- the values returned for a history of lookups in one table, from remembered segment `st` -/
+def lookupRun (c : LCfg) (pts : List (Rat × Rat)) : Nat → List Rat → List Rat
+  | _, [] => []
+  | st, x :: xs =>
+    if c.lookupStateless then lookup pts x :: lookupRun c pts st xs
+    else
+      let r := lookupStateful pts st x
+      r.1 :: lookupRun c pts r.2 xs
+
+/-- per-run probe rows `(far, x, v)`: `v` is what the real `_lookup` returned for `x` right after an unrelated lookup at
+`far` in the same table; it must be the table's interpolation at `x` -/
+def lookupProbeOK (pts : List (Rat × Rat)) (rows : List (Rat × Rat × Rat)) : Bool :=
+  rows.all fun r => lookup pts r.2.1 == r.2.2
+
 end Bptk.C01
+
